@@ -372,6 +372,8 @@ impl FieldElement2625x4 {
     /// The coefficients of the result are bounded with \\( b < 1 \\).
     #[inline]
     pub fn negate_lazy(&self) -> FieldElement2625x4 {
+        #[cfg(curve25519_dalek_verif)]
+        crate::verif_hooks::monitor_avx2(crate::verif_hooks::SITE_AVX2_NEGATE_LAZY, &self.0);
         // The limbs of self are bounded with b < 0.999, while the
         // smallest limb of 2*p is 67108845 > 2^{26+0.9999}, so
         // underflows are not possible.
@@ -395,6 +397,8 @@ impl FieldElement2625x4 {
     /// The coefficients of the result are bounded with \\( b < 1.6 \\).
     #[inline]
     pub fn diff_sum(&self) -> FieldElement2625x4 {
+        #[cfg(curve25519_dalek_verif)]
+        crate::verif_hooks::monitor_avx2(crate::verif_hooks::SITE_AVX2_DIFF_SUM, &self.0);
         // tmp1 = (B, A, D, C)
         let tmp1 = self.shuffle(Shuffle::BADC);
         // tmp2 = (-A, B, -C, D)
@@ -595,6 +599,8 @@ impl FieldElement2625x4 {
     /// The coefficients of the result are bounded with \\( b < 0.007 \\).
     #[rustfmt::skip] // keep alignment of z* calculations
     pub fn square_and_negate_D(&self) -> FieldElement2625x4 {
+        #[cfg(curve25519_dalek_verif)]
+        crate::verif_hooks::monitor_avx2(crate::verif_hooks::SITE_AVX2_SQUARE_AND_NEGATE_D, &self.0);
         #[inline(always)]
         fn m(x: u32x8, y: u32x8) -> u64x4 {
             x.mul32(y)
@@ -699,6 +705,8 @@ impl Neg for FieldElement2625x4 {
     /// The coefficients of the result are bounded with \\( b < 0.0002 \\).
     #[inline]
     fn neg(self) -> FieldElement2625x4 {
+        #[cfg(curve25519_dalek_verif)]
+        crate::verif_hooks::monitor_avx2(crate::verif_hooks::SITE_AVX2_NEG, &self.0);
         FieldElement2625x4([
             P_TIMES_16_LO - self.0[0],
             P_TIMES_16_HI - self.0[1],
@@ -777,6 +785,11 @@ impl Mul<&FieldElement2625x4> for &FieldElement2625x4 {
     #[rustfmt::skip] // keep alignment of z* calculations
     #[inline]
     fn mul(self, rhs: &FieldElement2625x4) -> FieldElement2625x4 {
+        #[cfg(curve25519_dalek_verif)]
+        {
+            crate::verif_hooks::monitor_avx2(crate::verif_hooks::SITE_AVX2_MUL_LHS, &self.0);
+            crate::verif_hooks::monitor_avx2(crate::verif_hooks::SITE_AVX2_MUL_RHS, &rhs.0);
+        }
         #[inline(always)]
         fn m(x: u32x8, y: u32x8) -> u64x4 {
             x.mul32(y)
